@@ -13,8 +13,9 @@
      6. the C04 theorems
      7. non-interference: a consumer that is never scheduled is invisible to everybody else *)
 From Coq Require Import ZArith List Bool Arith Lia.
-From V Require Import StreamLts.
+From V Require Import StreamLts Cache LtsWire.
 Import ListNotations.
+Local Open Scope nat_scope.
 
 Local Arguments s_ok {cache_t}.
 Local Arguments s_lock {cache_t}.
@@ -115,6 +116,39 @@ Proof.
   destruct (existsb p_key w) eqn:Ew; [reflexivity|exfalso].
   assert (Hs : since (a ++ w) < G) by (eapply gap_ok_prefix; [eassumption|rewrite E, app_assoc; reflexivity]).
   unfold since in Hs. rewrite since_acc_app, since_acc_nokey in Hs by assumption. lia.
+Qed.
+
+(* ... and conversely, so [gap_ok] is exactly the property's hypothesis *)
+Lemma gap_from_complete G : forall l pre run n,
+  n < G -> length run = n -> existsb p_key run = false ->
+  (forall a w b, (pre ++ run) ++ l = a ++ w ++ b -> length w = G -> existsb p_key w = true) ->
+  gap_from G n l = true.
+Proof.
+  induction l as [|p l IH]; intros pre run n Hn Hlen Hrun Hw; [reflexivity|]. simpl.
+  destruct (p_key p) eqn:Kp.
+  - apply (IH ((pre ++ run) ++ [p]) [] 0); [lia|reflexivity|reflexivity|].
+    intros a w b E. apply (Hw a w b). rewrite <- E. rewrite app_nil_r, <- !app_assoc. reflexivity.
+  - assert (Hrun' : existsb p_key (run ++ [p]) = false).
+    { rewrite existsb_app, Hrun. simpl. now rewrite Kp. }
+    assert (HS : S n < G).
+    { destruct (Nat.lt_ge_cases (S n) G) as [?|Hge]; [assumption|exfalso].
+      assert (E : existsb p_key (run ++ [p]) = true); [|congruence].
+      apply (Hw pre (run ++ [p]) l).
+      - rewrite <- !app_assoc. reflexivity.
+      - rewrite app_length. simpl. lia. }
+    apply andb_true_iff. split; [now apply Nat.ltb_lt|].
+    apply (IH pre (run ++ [p]) (S n)); [exact HS|rewrite app_length; simpl; lia|exact Hrun'|].
+    intros a w b E. apply (Hw a w b). rewrite <- E. rewrite <- !app_assoc. reflexivity.
+Qed.
+
+Lemma gap_ok_iff G pkts :
+  gap_ok G pkts = true <->
+  0 < G /\ forall a w b, pkts = a ++ w ++ b -> length w = G -> existsb p_key w = true.
+Proof.
+  split.
+  - intros H. split; [eapply gap_ok_pos; eassumption|now apply gap_ok_meaning].
+  - intros [HG Hw]. unfold gap_ok. apply andb_true_iff. split; [now apply Nat.ltb_lt|].
+    apply (gap_from_complete G pkts [] [] 0); auto.
 Qed.
 
 (* the packets broadcast while the consumer was registered: from the length of the sent log at
@@ -1586,6 +1620,18 @@ Proof.
   - unfold after_acquire. ssimpl. auto.
 Qed.
 
+Theorem join_mutex_fifo pkts stoppers sched c s' :
+  let s := runF sched (initF pkts stoppers) in
+  s_lock s = Some (HAtt c) -> stepF s (TAtt c) = Some s' ->
+  match s_lockq s with
+  | [] => s_lock s' = None /\ s_lockq s' = []
+  | HPub :: r => s_lock s' = Some HPub /\ s_lockq s' = r /\ s_pp s' = P2
+  | HAtt c' :: r => s_lock s' = Some (HAtt c') /\ s_lockq s' = r /\ s_pp s' = s_pp s
+  end.
+Proof.
+  intros s. apply holder_step_serves_queue. apply (inv_l 0 pkts). apply inv_reachable.
+Qed.
+
 (** ** 7.4 a stalled consumer does not affect the others *)
 
 (* steps of the goroutines that belong to another consumer leave this consumer alone *)
@@ -1625,8 +1671,8 @@ Proof.
     + unfold after_acquire. ssimpl. rewrite upd_other; [now apply upd_other|].
       intros ->. apply Hhd. reflexivity.
   - cbn [v_recheck fixed] in Hstep.
-    destruct (true && negb (s_ok s) && c_reg (s_cs s c')); injection Hstep as <-; ssimpl;
-      now apply upd_other.
+    match type of Hstep with context [if ?b then _ else _] => destruct b end;
+      injection Hstep as <-; ssimpl; now apply upd_other.
 Qed.
 
 Lemma att_step_frame (s : state) c' s' c :
@@ -1710,4 +1756,311 @@ Proof.
     + split; [exact Hp|auto].
 Qed.
 
+(* ------------------------------------------------------------------ *)
+(** * 8. Non-interference: a consumer that is never scheduled is invisible *)
+
+(* equal in everything except consumer c' itself, its stopper's position and the shared counter
+   (which no step reads) *)
+Definition same_but (c' : nat) (s1 s2 : state) : Prop :=
+  s_ok s1 = s_ok s2 /\ s_lock s1 = s_lock s2 /\ s_lockq s1 = s_lockq s2 /\
+  s_cache s1 = s_cache s2 /\ s_sent s1 = s_sent s2 /\ s_cached s1 = s_cached s2 /\
+  s_todo s1 = s_todo s2 /\ s_pp s1 = s_pp s2 /\
+  (forall x, x <> c' -> s_cs s1 x = s_cs s2 x) /\ (forall x, s_att s1 x = s_att s2 x) /\
+  (forall x, x <> c' -> s_stp s1 x = s_stp s2 x) /\ s_kp s1 = s_kp s2.
+
+Ltac sb_break H := destruct H as (Eok & Elock & Elockq & Ecache & Esent & Ecached & Etodo & Epp & Ecs & Eatt & Estp & Ekp).
+
+Lemma same_but_refl c' s : same_but c' s s.
+Proof. unfold same_but. repeat split; auto. Qed.
+
+Lemma same_but_sym c' s1 s2 : same_but c' s1 s2 -> same_but c' s2 s1.
+Proof.
+  intros H. sb_break H. unfold same_but. repeat split; auto; intros; symmetry; auto.
+Qed.
+
+Lemma same_but_trans c' s1 s2 s3 : same_but c' s1 s2 -> same_but c' s2 s3 -> same_but c' s1 s3.
+Proof.
+  intros H H'. sb_break H. destruct H' as (A1' & A2' & A3' & A4' & A5' & A6' & A7' & A8' & A9' & A10' & A11' & A12').
+  unfold same_but. repeat split; try congruence; intros;
+    first [ rewrite Ecs by assumption; now auto
+          | rewrite Estp by assumption; now auto
+          | rewrite Eatt; now auto ].
+Qed.
+
+Lemma upd_ext_but {A} c' (f1 f2 : nat -> A) c v1 v2 :
+  (forall x, x <> c' -> f1 x = f2 x) -> (c <> c' -> v1 = v2) ->
+  forall x, x <> c' -> upd f1 c v1 x = upd f2 c v2 x.
+Proof.
+  intros Hf Hv x Hx. destruct (Nat.eq_dec c x) as [->|Hne].
+  - rewrite !upd_same. auto.
+  - rewrite !upd_other by assumption. auto.
+Qed.
+
+Lemma upd_ext {A} (f1 f2 : nat -> A) c v :
+  (forall x, f1 x = f2 x) -> forall x, upd f1 c v x = upd f2 c v x.
+Proof.
+  intros Hf x. destruct (Nat.eq_dec c x) as [->|Hne].
+  - now rewrite !upd_same.
+  - rewrite !upd_other by assumption. auto.
+Qed.
+
+Notation after_acquireF := (after_acquire cache_t cache_add cache_snap).
+Notation acquireF := (acquire fixed cache_t cache_add cache_snap).
+Notation releaseF := (release fixed cache_t cache_add cache_snap).
+
+Lemma after_acquire_same_but c' m1 m2 h r :
+  same_but c' m1 m2 -> same_but c' (after_acquireF m1 h r) (after_acquireF m2 h r).
+Proof.
+  intros H. pose proof H as H0. sb_break H. unfold after_acquire. destruct h as [|c].
+  - rewrite Etodo. destruct (s_todo m2) eqn:Et2; [exact H0|].
+    unfold same_but. ssimpl. repeat split; auto; try congruence.
+  - unfold same_but. ssimpl. repeat split; auto; try congruence.
+    + apply upd_ext_but; [exact Ecs|]. intros Hc. rewrite (Ecs c Hc), Ecache. reflexivity.
+    + apply upd_ext. exact Eatt.
+Qed.
+
+Lemma acquire_same_but c' m1 m2 h :
+  same_but c' m1 m2 -> same_but c' (acquireF m1 h) (acquireF m2 h).
+Proof.
+  intros H. pose proof H as H0. sb_break H. unfold acquire. cbn [v_lock fixed].
+  rewrite Elock, Elockq. destruct (s_lock m2) eqn:El2.
+  - destruct h as [|c]; unfold same_but; ssimpl; repeat split; auto; try congruence.
+    apply upd_ext. exact Eatt.
+  - now apply after_acquire_same_but.
+Qed.
+
+Lemma release_same_but c' m1 m2 :
+  same_but c' m1 m2 -> same_but c' (releaseF m1) (releaseF m2).
+Proof.
+  intros H. pose proof H as H0. sb_break H. unfold release. cbn [v_lock fixed].
+  rewrite Elockq. destruct (s_lockq m2) as [|h r] eqn:Eq2.
+  - unfold same_but; ssimpl; repeat split; auto.
+  - now apply after_acquire_same_but.
+Qed.
+
+Lemma send_all_ext_but c' f1 f2 p :
+  (forall x, x <> c' -> f1 x = f2 x) ->
+  forall x, x <> c' -> send_all maxq ncons f1 p x = send_all maxq ncons f2 p x.
+Proof. intros H x Hx. rewrite !send_all_at. now rewrite (H x Hx). Qed.
+
+Lemma sweep_ext_but c' f1 f2 sent :
+  (forall x, x <> c' -> f1 x = f2 x) ->
+  forall x, x <> c' -> fst (sweep fixed ncons f1 sent) x = fst (sweep fixed ncons f2 sent) x.
+Proof. intros H x Hx. rewrite !sweep_at. now rewrite (H x Hx). Qed.
+
+Lemma step_cons_none (s : state) c :
+  step_consF s c = None <-> cons_next (panic_at c) (s_cs s c) (length (s_sent s)) = None.
+Proof.
+  unfold step_cons, cons_next.
+  destruct (c_pc (s_cs s c)) as [| |[p|]| | |]; try tauto; try (split; discriminate).
+  - destruct (c_q (s_cs s c)); split; discriminate.
+  - destruct (Nat.eqb (S (length (c_out (s_cs s c)))) (panic_at c)); split; discriminate.
+Qed.
+
+(* the steps of c' 's own goroutine and of its stopper touch nothing else *)
+Lemma own_step_same_but c' t (s s' : state) :
+  t = TCons c' \/ t = TStop c' -> stepF s t = Some s' -> same_but c' s s'.
+Proof.
+  intros [->| ->] Hstep; simpl in Hstep; destruct (c' <? ncons); try discriminate.
+  - destruct (step_cons_spec _ _ _ Hstep) as (k' & _ & Ecs & Hctl & E1 & E2 & E3 & E4).
+    destruct Hctl as (C1 & C2 & C3 & C4 & C5 & C6 & C7).
+    unfold same_but. repeat split; try congruence; intros x; intros;
+      first [ rewrite Ecs; rewrite upd_other by congruence; reflexivity
+            | now rewrite C7 | now rewrite E4 ].
+  - destruct (s_att s c'); try discriminate.
+    unfold step_stop in Hstep. cbn [v_atomic fixed] in Hstep.
+    destruct (s_stp s c'); try discriminate.
+    + destruct (c_reg (s_cs s c')); injection Hstep as <-; unfold same_but; ssimpl;
+        repeat split; auto; intros x Hx; rewrite upd_other by congruence; reflexivity.
+    + injection Hstep as <-; unfold same_but; ssimpl;
+        repeat split; auto; intros x Hx; rewrite upd_other by congruence; reflexivity.
+Qed.
+
+Definition opt_same_but (c' : nat) (o1 o2 : option state) : Prop :=
+  match o1, o2 with
+  | Some a, Some b => same_but c' a b
+  | None, None => True
+  | _, _ => False
+  end.
+
+(* every other step is enabled in both states or in neither, and leads to related states *)
+Lemma step_same_but c' t (s1 s2 : state) :
+  same_but c' s1 s2 -> t <> TCons c' -> t <> TStop c' ->
+  opt_same_but c' (stepF s1 t) (stepF s2 t).
+Proof.
+  intros H Ht1 Ht2. pose proof H as H0. sb_break H. destruct t as [| |c|c|c]; simpl.
+  - (* TPub *)
+    unfold step_pub. rewrite Epp, Etodo, Eok.
+    destruct (s_pp s2) eqn:Epp2; destruct (s_todo s2) as [|p rest] eqn:Et2; simpl; auto.
+    + destruct (s_ok s2) eqn:Eok2; simpl; unfold same_but; ssimpl; repeat split; auto; try congruence.
+    + now apply acquire_same_but.
+    + apply release_same_but. unfold same_but; ssimpl; repeat split; auto; try congruence.
+      now apply send_all_ext_but.
+  - (* TClose *)
+    unfold step_close. rewrite Ekp. destruct (s_kp s2) eqn:Ekp2; simpl; auto.
+    + rewrite Eok. unfold same_but; ssimpl; repeat split; auto.
+    + rewrite Esent.
+      pose proof (sweep_ext_but c' (s_cs s1) (s_cs s2) (length (s_sent s2)) Ecs) as Hsw.
+      destruct (sweep fixed ncons (s_cs s1) (length (s_sent s2))) as [f1 d1].
+      destruct (sweep fixed ncons (s_cs s2) (length (s_sent s2))) as [f2 d2].
+      simpl in Hsw. simpl. unfold same_but; ssimpl; repeat split; auto.
+    + unfold same_but; ssimpl; repeat split; auto.
+  - (* TAtt c *)
+    destruct (c <? ncons); simpl; auto.
+    unfold step_att. rewrite (Eatt c). destruct (s_att s2 c) eqn:Ea; simpl; auto.
+    + now apply acquire_same_but.
+    + apply release_same_but. unfold same_but; ssimpl; repeat split; auto.
+      * apply upd_ext_but; [exact Ecs|]. intros Hc. rewrite (Ecs c Hc), Esent. reflexivity.
+      * apply upd_ext. exact Eatt.
+    + cbn [v_recheck fixed]. rewrite Eok, Esent.
+      destruct (Nat.eq_dec c c') as [->|Hc].
+      * repeat match goal with |- context [if ?b then _ else _] => destruct b end; simpl;
+          unfold same_but; ssimpl; repeat split; auto;
+          try (apply upd_ext_but; [exact Ecs|congruence]); try (apply upd_ext; exact Eatt).
+      * rewrite (Ecs c Hc).
+        repeat match goal with |- context [if ?b then _ else _] => destruct b end; simpl;
+          unfold same_but; ssimpl; repeat split; auto;
+          try (apply upd_ext_but; [exact Ecs|reflexivity]); try (apply upd_ext; exact Eatt).
+  - (* TStop c *)
+    assert (Hc : c <> c') by congruence.
+    destruct (c <? ncons); simpl; auto. rewrite (Eatt c). destruct (s_att s2 c); simpl; auto.
+    unfold step_stop. cbn [v_atomic fixed]. rewrite (Estp c Hc), (Ecs c Hc), Esent.
+    destruct (s_stp s2 c); simpl; auto.
+    + destruct (c_reg (s_cs s2 c)); simpl; unfold same_but; ssimpl; repeat split; auto.
+      * apply upd_ext_but; [exact Ecs|reflexivity].
+      * apply upd_ext_but; [exact Estp|reflexivity].
+      * apply upd_ext_but; [exact Estp|reflexivity].
+    + unfold same_but; ssimpl; repeat split; auto.
+      * apply upd_ext_but; [exact Ecs|reflexivity].
+      * apply upd_ext_but; [exact Estp|reflexivity].
+  - (* TCons c *)
+    assert (Hc : c <> c') by congruence.
+    destruct (c <? ncons); simpl; auto.
+    assert (En : cons_next (panic_at c) (s_cs s1 c) (length (s_sent s1)) =
+                 cons_next (panic_at c) (s_cs s2 c) (length (s_sent s2))).
+    { now rewrite (Ecs c Hc), Esent. }
+    destruct (step_consF s1 c) as [a|] eqn:E1; destruct (step_consF s2 c) as [b|] eqn:E2; simpl; auto.
+    + destruct (step_cons_spec _ _ _ E1) as (k1 & N1 & C1 & (A1 & A2 & A3 & A4 & A5 & A6 & A7) & A8 & A9 & A10 & A11).
+      destruct (step_cons_spec _ _ _ E2) as (k2 & N2 & C2 & (B1 & B2 & B3 & B4 & B5 & B6 & B7) & B8 & B9 & B10 & B11).
+      assert (k1 = k2) by congruence. subst k2.
+      unfold same_but. repeat split; try congruence;
+        first [ rewrite C1, C2; apply upd_ext_but; [exact Ecs|reflexivity]
+              | intros x; rewrite A7, B7; apply Eatt
+              | intros x Hx; rewrite A11, B11; now apply Estp ].
+    + apply step_cons_none in E2. rewrite <- En in E2.
+      destruct (step_cons_spec _ _ _ E1) as (k1 & N1 & _). congruence.
+    + apply step_cons_none in E1. rewrite En in E1.
+      destruct (step_cons_spec _ _ _ E2) as (k2 & N2 & _). congruence.
+Qed.
+
+Definition is_cons_of (c' : nat) (t : tid) : bool :=
+  match t with TCons x => Nat.eqb x c' | _ => false end.
+
+Definition step_or_skip (s : state) (t : tid) : state :=
+  match stepF s t with Some s' => s' | None => s end.
+
+Lemma run_cons sched t (s : state) : runF (t :: sched) s = runF sched (step_or_skip s t).
+Proof. reflexivity. Qed.
+
+(* Run the same schedule twice, once as it is and once with every step of consumer c' 's
+   goroutine removed (c' never reads: it is stalled from the start).  The two final states agree
+   on the publisher, the closer, the join mutex, every other consumer (queue, delivered packets,
+   discarding flag, Close calls ...), every attacher and every other stopper. *)
+Theorem stalled_invisible c' sched : forall s1 s2,
+  same_but c' s1 s2 ->
+  same_but c' (runF sched s1) (runF (filter (fun t => negb (is_cons_of c' t)) sched) s2).
+Proof.
+  induction sched as [|t sched IH]; intros s1 s2 H; [exact H|].
+  rewrite run_cons.
+  assert (Hown : forall s, t = TCons c' \/ t = TStop c' -> same_but c' s (step_or_skip s t)).
+  { intros s Ht. unfold step_or_skip. destruct (stepF s t) eqn:E.
+    - eapply own_step_same_but; eassumption.
+    - apply same_but_refl. }
+  destruct t as [| |c|c|c]; simpl filter.
+  1-3: (rewrite run_cons; apply IH; unfold step_or_skip;
+        match goal with |- same_but _ (match stepF _ ?T with _ => _ end) _ =>
+          pose proof (step_same_but c' T s1 s2 H) as Hs end;
+        unfold opt_same_but in Hs;
+        match type of Hs with _ -> _ -> match ?A with _ => _ end =>
+          destruct A; match goal with |- context [match ?B with _ => _ end] => destruct B end end;
+        try (apply Hs; discriminate); try (exfalso; apply Hs; discriminate); exact H).
+  - (* TStop c *)
+    rewrite run_cons. apply IH. destruct (Nat.eq_dec c c') as [->|Hc].
+    + eapply same_but_trans; [apply same_but_sym, Hown; auto|].
+      eapply same_but_trans; [exact H|apply Hown; auto].
+    + unfold step_or_skip. pose proof (step_same_but c' (TStop c) s1 s2 H) as Hs.
+      unfold opt_same_but in Hs.
+      destruct (stepF s1 (TStop c)); destruct (stepF s2 (TStop c));
+        try (apply Hs; congruence); try (exfalso; apply Hs; congruence); exact H.
+  - (* TCons c *)
+    unfold is_cons_of. destruct (Nat.eqb_spec c c') as [->|Hc]; cbn [negb].
+    + apply IH. eapply same_but_trans; [apply same_but_sym, Hown; auto|exact H].
+    + rewrite run_cons. apply IH.
+      unfold step_or_skip. pose proof (step_same_but c' (TCons c) s1 s2 H) as Hs.
+      unfold opt_same_but in Hs.
+      destruct (stepF s1 (TCons c)); destruct (stepF s2 (TCons c));
+        try (apply Hs; congruence); try (exfalso; apply Hs; congruence); exact H.
+Qed.
+
+Corollary stalled_consumer_invisible pkts stoppers sched c' :
+  let s := runF sched (initF pkts stoppers) in
+  let s0 := runF (filter (fun t => negb (is_cons_of c' t)) sched) (initF pkts stoppers) in
+  (forall c, c <> c' -> s_cs s c = s_cs s0 c) /\
+  s_sent s = s_sent s0 /\ s_todo s = s_todo s0 /\ s_pp s = s_pp s0 /\
+  s_lock s = s_lock s0 /\ s_lockq s = s_lockq s0 /\ (forall c, s_att s c = s_att s0 c) /\
+  s_ok s = s_ok s0 /\ s_kp s = s_kp s0.
+Proof.
+  intros s s0.
+  pose proof (stalled_invisible c' sched _ _ (same_but_refl c' (initF pkts stoppers))) as H.
+  fold s s0 in H. sb_break H. repeat split; auto.
+Qed.
+
 End Backlog.
+
+(* ------------------------------------------------------------------ *)
+(** * 9. Concrete runs (rcache instance, computable) *)
+
+Definition mkp (i k : Z) : pkt := {| p_id := i; p_kind := k |}.
+
+(* twelve packets, a key-frame start every third packet *)
+Definition c04_pkts : list pkt :=
+  [mkp 1 2; mkp 2 1; mkp 3 1; mkp 4 2; mkp 5 1; mkp 6 1;
+   mkp 7 2; mkp 8 1; mkp 9 1; mkp 10 2; mkp 11 1; mkp 12 1]%Z.
+
+Definition att_steps (c : nat) : list tid := [TAtt c; TAtt c; TAtt c].
+(* the publisher writes one packet; consumer 1 takes it at once (pop, Consume) *)
+Definition pub_and_read1 : list tid := [TPub; TPub; TPub; TCons 1; TCons 1].
+
+(* consumer 0 is stalled while nine packets are published ... *)
+Definition c04_sched_stalled : list tid :=
+  att_steps 0 ++ att_steps 1 ++ concat (repeat pub_and_read1 9).
+(* ... then reads four packets, and three more packets are published *)
+Definition c04_sched : list tid :=
+  c04_sched_stalled ++ repeat (TCons 0) 8 ++ concat (repeat pub_and_read1 3).
+
+Definition c04_case (sched : list tid) : lcase :=
+  {| l_var := fixed; l_n := 2; l_maxq := 3; l_gop := true; l_pkts := c04_pkts; l_stop := [];
+     l_sched := sched; l_panic := [] |}.
+
+(* consumer 0 panics in its second Consume call *)
+Definition c04_panic_case : lcase :=
+  {| l_var := fixed; l_n := 1; l_maxq := 3; l_gop := true;
+     l_pkts := [mkp 1 2; mkp 2 1; mkp 3 1]%Z; l_stop := [];
+     l_sched := att_steps 0 ++ [TPub; TPub; TPub; TCons 0; TCons 0; TPub; TPub; TPub;
+                                TCons 0; TCons 0; TCons 0; TPub; TPub; TPub];
+     l_panic := [2] |}.
+
+(* Counterexample to the unguarded frame statement "a step of another consumer's attacher leaves
+   this consumer unchanged": when attacher 0 leaves the join section it hands the mutex to the
+   queued attacher 1, whose entry into the section (the cache snapshot) is part of the same
+   atomic step of the model.  (The snapshot is attacher 1's own action; consumer 0 has no
+   influence on its content.) *)
+Definition c04_att_case : lcase :=
+  {| l_var := fixed; l_n := 2; l_maxq := 3; l_gop := true; l_pkts := [mkp 1 3]%Z; l_stop := [];
+     l_sched := [TPub; TPub; TPub; TAtt 0; TAtt 1]; l_panic := [] |}.
+
+Example att_step_frame_unguarded_refuted :
+  let s := lrun c04_att_case in
+  exists s', step fixed 3 rcache (rc_empty true) rc_add rc_snap 2 (fun _ => 0) s (TAtt 0) = Some s' /\
+             s_att s 1 = A0W /\ c_q (s_cs s 1) = [] /\ c_q (s_cs s' 1) = [Some (mkp 1 3)].
+Proof. vm_compute. eexists. split; [reflexivity|]. repeat split. Qed.
